@@ -22,9 +22,10 @@
 //	    character at that position.  This is sound for strings that are valid UTF-8 (every caller
 //	    passes the text accumulated from decoded runes) under the following conditions, of which the
 //	    translator CHECKS (a) and (b) and the reader has to accept (c):
-//	    (a) a string byte is only compared with ASCII constants (`==`, `!=`, `<=`/`<` against
-//	        literals < 0x80, `< K` with K ≤ 0x80), so every test has the same outcome for each byte
-//	        of a multi-byte character as for the character itself, namely "not equal / not in range";
+//	    (a) a string byte is only compared with ASCII constants (`==`, `!=`, `<=`/`<`/`>=`/`>` against
+//	        literals < 0x80, `< K` / `>= K` with K ≤ 0x80), so every test has the same outcome for each
+//	        byte of a multi-byte character as for the character itself (both are ≥ 0x80), namely "not
+//	        equal / not below the bound";
 //	    (b) a string byte is used in arithmetic (`c-'0'`, `hex[char>>4]`) only under dominating tests
 //	        that bound it above by a constant < 0x80 (so byte and character coincide) and, for a
 //	        subtraction, below by the subtrahend (see S8); it is written to the output only as
@@ -62,6 +63,10 @@
 //	    function itself applies `.getD <literal>` (Model/Strconv.lean: "none = invalid escape (the Go
 //	    function then returns \"\")").
 //	S7  Closures.  `f := func(…) {…}` that captures nothing is a top-level definition `<outer>_fGen`.
+//	    A package-level function `func f(…) {…}` (no receiver) that is called where such a closure could be
+//	    called is translated in the same way, under the same name (`<first caller>_fGen`): it captures
+//	    nothing by construction, and like the body of a closure its body may only mention its own
+//	    parameter and locals.
 //	S8  Integers.  `rune`, `byte`, `int` values are `Nat`; the conversions `rune(x)`, `int(x)` are the
 //	    identity.  `x - K` is translated (as truncated subtraction) only where a test `K' <= x` with
 //	    K' ≥ K dominates it on the path; otherwise the translation fails.  `<<`, `>>`, `|`, `&` are
@@ -170,6 +175,9 @@ type sgx struct {
 	loop    *sgLoop
 	nLoops  int
 	counter int // fresh character names
+	// the package-level functions (by name) and those already translated as the closures they are called as (S7)
+	funcs   map[string]*ast.FuncDecl
+	pkgClos map[string]*sgVar
 }
 
 type sgKont func(*sgEnv) lnode
@@ -463,6 +471,8 @@ type sgCond struct {
 	top  string // "and", "or" or "" : the outermost connective of lean
 	// the bounds the condition establishes when it holds
 	facts map[*sgVar]sgFact
+	// the bounds it establishes when it does not hold (`if c < K { … continue }` leaves `c >= K` behind)
+	nfacts map[*sgVar]sgFact
 }
 
 type sgFact struct {
@@ -517,9 +527,9 @@ func (x *sgx) pureCond(e ast.Expr, env *sgEnv) (sgCond, bool) {
 			case "false":
 				return sgCond{kind: "true"}, true
 			case "bool":
-				return sgCond{kind: "bool", lean: "!" + sgWrap(c.lean)}, true
+				return sgCond{kind: "bool", lean: "!" + sgWrap(c.lean), facts: c.nfacts, nfacts: c.facts}, true
 			default:
-				return sgCond{kind: "prop", lean: "¬ " + sgWrap(c.lean)}, true
+				return sgCond{kind: "prop", lean: "¬ " + sgWrap(c.lean), facts: c.nfacts, nfacts: c.facts}, true
 			}
 		}
 	case *ast.BinaryExpr:
@@ -580,6 +590,8 @@ func (x *sgx) pureCond(e ast.Expr, env *sgEnv) (sgCond, bool) {
 			c := sgCond{kind: a.kind, lean: l + op + r, top: top}
 			if and {
 				c.facts = sgMergeFacts(a.facts, b.facts)
+			} else {
+				c.nfacts = sgMergeFacts(a.nfacts, b.nfacts)
 			}
 			return c, true
 		case token.EQL, token.NEQ, token.LSS, token.LEQ, token.GTR, token.GEQ:
@@ -604,34 +616,34 @@ func (x *sgx) comparison(t *ast.BinaryExpr, env *sgEnv) sgCond {
 		failAt(t, "internal: length test in a pure condition")
 	}
 	lc, rc := x.isCharExpr(t.X, env), x.isCharExpr(t.Y, env)
-	facts := map[*sgVar]sgFact{}
-	// bounds: K <= x, K < x, x >= K, x > K (lower); x <= K, x < K, K >= x, K > x (upper)
+	facts, nfacts := map[*sgVar]sgFact{}, map[*sgVar]sgFact{}
+	// bounds: K <= x, K < x, x >= K, x > K (lower); x <= K, x < K, K >= x, K > x (upper); the negation of a lower
+	// bound is an upper bound and vice versa
+	bound := func(v *sgVar, op token.Token, k int64) { // v op k
+		switch op {
+		case token.GEQ:
+			facts[v] = sgFact{lower: k}
+			nfacts[v] = sgFact{lower: -1, ascii: k <= 0x80}
+		case token.GTR:
+			facts[v] = sgFact{lower: k + 1}
+			nfacts[v] = sgFact{lower: -1, ascii: k < 0x80}
+		case token.LEQ:
+			facts[v] = sgFact{lower: -1, ascii: k < 0x80}
+			nfacts[v] = sgFact{lower: k + 1}
+		case token.LSS:
+			facts[v] = sgFact{lower: -1, ascii: k <= 0x80}
+			nfacts[v] = sgFact{lower: k}
+		}
+	}
+	mirror := map[token.Token]token.Token{token.LEQ: token.GEQ, token.LSS: token.GTR, token.GEQ: token.LEQ, token.GTR: token.LSS}
 	if k, ok := sgConst(t.X); ok {
 		if v := x.factVar(t.Y, env); v != nil {
-			switch t.Op {
-			case token.LEQ:
-				facts[v] = sgFact{lower: k}
-			case token.LSS:
-				facts[v] = sgFact{lower: k + 1}
-			case token.GEQ:
-				facts[v] = sgFact{lower: -1, ascii: k < 0x80}
-			case token.GTR:
-				facts[v] = sgFact{lower: -1, ascii: k <= 0x80}
-			}
+			bound(v, mirror[t.Op], k)
 		}
 	}
 	if k, ok := sgConst(t.Y); ok {
 		if v := x.factVar(t.X, env); v != nil {
-			switch t.Op {
-			case token.GEQ:
-				facts[v] = sgFact{lower: k}
-			case token.GTR:
-				facts[v] = sgFact{lower: k + 1}
-			case token.LEQ:
-				facts[v] = sgFact{lower: -1, ascii: k < 0x80}
-			case token.LSS:
-				facts[v] = sgFact{lower: -1, ascii: k <= 0x80}
-			}
+			bound(v, t.Op, k)
 		}
 	}
 	if lc || rc {
@@ -658,27 +670,32 @@ func (x *sgx) comparison(t *ast.BinaryExpr, env *sgEnv) sgCond {
 			case token.NEQ:
 				return sgCond{kind: "bool", lean: l + " != " + rr}
 			case token.LEQ:
-				return sgCond{kind: "prop", lean: l + " ≤ " + rr, facts: facts}
+				return sgCond{kind: "prop", lean: l + " ≤ " + rr, facts: facts, nfacts: nfacts}
 			case token.LSS:
-				return sgCond{kind: "prop", lean: l + " < " + rr, facts: facts}
+				return sgCond{kind: "prop", lean: l + " < " + rr, facts: facts, nfacts: nfacts}
 			case token.GEQ:
-				return sgCond{kind: "prop", lean: l + " ≥ " + rr, facts: facts}
+				return sgCond{kind: "prop", lean: l + " ≥ " + rr, facts: facts, nfacts: nfacts}
 			case token.GTR:
-				return sgCond{kind: "prop", lean: l + " > " + rr, facts: facts}
+				return sgCond{kind: "prop", lean: l + " > " + rr, facts: facts, nfacts: nfacts}
 			}
 		}
 		if k, ok := sgIntLit(other); ok {
-			// an upper bound on the byte (`char < 0x20`): every byte of a multi-byte character is ≥ 0x80
-			okForm := lc && ((t.Op == token.LSS && k <= 0x80) || (t.Op == token.LEQ && k < 0x80))
-			if !okForm {
-				failAt(t, "%s: a string byte may only be bounded above by a constant ≤ 0x80 (rule S2a)", src(t))
+			// a bound on the byte (`char < 0x20`, `char >= 0x20`) by a constant ≤ 0x80: every byte of a multi-byte
+			// character is ≥ 0x80, as is the code of the character, so the test has the same outcome for both
+			op := t.Op
+			if !lc {
+				op = mirror[op] // `K op' char` is `char op K`
 			}
-			op := " < "
-			if t.Op == token.LEQ {
-				op = " ≤ "
+			okForm := ((op == token.LSS || op == token.GEQ) && k <= 0x80) || ((op == token.LEQ || op == token.GTR) && k < 0x80)
+			if !okForm || k < 0 {
+				failAt(t, "%s: a string byte may only be compared with a bound ≤ 0x80 (rule S2a)", src(t))
 			}
+			sym := map[token.Token]string{token.LSS: " < ", token.LEQ: " ≤ ", token.GEQ: " ≥ ", token.GTR: " > "}[t.Op]
 			lit := unparen(other).(*ast.BasicLit).Value
-			return sgCond{kind: "prop", lean: sgWrap(cv) + ".toNat" + op + lit, facts: facts}
+			if !lc {
+				return sgCond{kind: "prop", lean: lit + sym + sgWrap(cv) + ".toNat", facts: facts, nfacts: nfacts}
+			}
+			return sgCond{kind: "prop", lean: sgWrap(cv) + ".toNat" + sym + lit, facts: facts, nfacts: nfacts}
 		}
 		failAt(t, "unrecognised comparison of a string byte %s", src(t))
 	}
@@ -689,13 +706,13 @@ func (x *sgx) comparison(t *ast.BinaryExpr, env *sgEnv) sgCond {
 	case token.NEQ:
 		return sgCond{kind: "bool", lean: a + " != " + b}
 	case token.LEQ:
-		return sgCond{kind: "prop", lean: a + " ≤ " + b, facts: facts}
+		return sgCond{kind: "prop", lean: a + " ≤ " + b, facts: facts, nfacts: nfacts}
 	case token.LSS:
-		return sgCond{kind: "prop", lean: a + " < " + b, facts: facts}
+		return sgCond{kind: "prop", lean: a + " < " + b, facts: facts, nfacts: nfacts}
 	case token.GEQ:
-		return sgCond{kind: "prop", lean: a + " ≥ " + b, facts: facts}
+		return sgCond{kind: "prop", lean: a + " ≥ " + b, facts: facts, nfacts: nfacts}
 	case token.GTR:
-		return sgCond{kind: "prop", lean: a + " > " + b, facts: facts}
+		return sgCond{kind: "prop", lean: a + " > " + b, facts: facts, nfacts: nfacts}
 	}
 	failAt(t, "unrecognised comparison %s", src(t))
 	return sgCond{}
@@ -776,6 +793,7 @@ func (x *sgx) branch(cond ast.Expr, env *sgEnv, kT, kF sgKont) lnode {
 		}
 		eT, eF := env.clone(), env.clone()
 		sgLearn(env, eT, c.facts)
+		sgLearn(env, eF, c.nfacts)
 		return lIf{cond: c.lean, a: kT(eT), b: kF(eF)}
 	}
 	switch t := cond.(type) {
@@ -1103,7 +1121,7 @@ func (x *sgx) execAssign(s *ast.AssignStmt, env *sgEnv, next sgKont) lnode {
 			if !define {
 				failAt(s, "a closure is assigned to an existing variable")
 			}
-			f := x.closure(names[0], fl)
+			f := x.closure(names[0], fl, false)
 			x.declare(s, env, names[0], &sgVar{kind: sgClosure, clos: f})
 			return next(env)
 		}
@@ -1118,6 +1136,10 @@ func (x *sgx) execAssign(s *ast.AssignStmt, env *sgEnv, next sgKont) lnode {
 		var f *sgVar
 		if ok {
 			f = env.vars[fid.Name]
+			if f == nil {
+				// no local of that name: a package-level function (rule S7)
+				f = x.packageFunc(fid.Name)
+			}
 		}
 		if f == nil || f.kind != sgClosure || f.clos.mode != "optnat" || len(call.Args) != 1 {
 			failAt(s, "unrecognised call %s", src(call))
@@ -1584,8 +1606,33 @@ func sgHasLiteralReturnInLoop(body *ast.BlockStmt) bool {
 	return found
 }
 
+// packageFunc translates the package-level function `name` (no receiver, no type parameters) as the closure it
+// is called as: a function declared at package level captures nothing by construction, and its body is
+// translated in an environment that contains only its own parameter, exactly like the body of a closure.  The
+// Lean definition is named after the first function that calls it.  nil = there is no such function.
+func (x *sgx) packageFunc(name string) *sgVar {
+	if v, ok := x.pkgClos[name]; ok {
+		return v // nil while the function itself is being translated: recursion is not supported
+	}
+	fd := x.funcs[name]
+	if fd == nil || fd.Recv != nil || fd.Body == nil || fd.Type.TypeParams != nil {
+		return nil
+	}
+	if x.pkgClos == nil {
+		x.pkgClos = map[string]*sgVar{}
+	}
+	x.pkgClos[name] = nil
+	savedLoop := x.loop
+	x.loop = nil
+	f := x.closure(name, &ast.FuncLit{Type: fd.Type, Body: fd.Body}, true)
+	x.loop = savedLoop
+	v := &sgVar{kind: sgClosure, clos: f}
+	x.pkgClos[name] = v
+	return v
+}
+
 // the free variables of a closure must be its parameters and locals
-func (x *sgx) closure(goName string, fl *ast.FuncLit) *sgFunc {
+func (x *sgx) closure(goName string, fl *ast.FuncLit, pkgLevel bool) *sgFunc {
 	ps := fl.Type.Params.List
 	rs := fl.Type.Results
 	if len(ps) != 1 || len(ps[0].Names) != 1 || src(ps[0].Type) != "string" || rs == nil || len(rs.List) != 2 ||
@@ -1607,7 +1654,11 @@ func (x *sgx) closure(goName string, fl *ast.FuncLit) *sgFunc {
 		return nil
 	})
 	var b strings.Builder
-	fmt.Fprintf(&b, "/-- the closure `%s` of `%s` (%s); `none` = `return 0, false` (rules S6, S7) -/\n", goName, outer.goName, where(fl))
+	if pkgLevel {
+		fmt.Fprintf(&b, "/-- the package-level function `%s` called by `%s` (%s); `none` = `return 0, false` (rules S6, S7) -/\n", goName, outer.goName, where(fl))
+	} else {
+		fmt.Fprintf(&b, "/-- the closure `%s` of `%s` (%s); `none` = `return 0, false` (rules S6, S7) -/\n", goName, outer.goName, where(fl))
+	}
 	fmt.Fprintf(&b, "def %s (s : Str) : Option Nat :=\n  ", f.name)
 	emit(&b, tree, "  ")
 	b.WriteString("\n")
@@ -1771,7 +1822,7 @@ func genStr(pkg *pkgInfo) (text string, err error) {
 		}
 		return fd
 	}
-	x := &sgx{}
+	x := &sgx{funcs: pkg.funcs}
 	x.stringFunc(need("unquoteJSON"), "unquoteJSONGen")
 	x.stringFunc(need("quoteJSON"), "quoteJSONGen")
 	x.defs = append(x.defs, sgParseFile(need("ParseFile")))
